@@ -652,7 +652,20 @@ class Interp:
             raise HarnessGap("comprehension shape")
         g = n.generators[0]
         out = []
-        for v in self.iterate(self.ev(g.iter, env)):
+        it = self.iterate(self.ev(g.iter, env))
+        if isinstance(it, SymRange):  # same path-forking unwinding as s_For
+            k = 0
+            while self.truth(self.compare("Lt", k, it.n)):
+                if k >= it.bound:
+                    raise Unwind(f"comprehension over range(symbolic) beyond {it.bound}")
+                e2 = [{}] + env
+                self.assign(g.target, k, e2)
+                out.append(self.ev(n.elt, e2))
+                k += 1
+            return SList(out)
+        if isinstance(it, SentinelIter):
+            raise HarnessGap("comprehension over iter(callable, sentinel)")
+        for v in it:
             e2 = [{}] + env
             self.assign(g.target, v, e2)
             out.append(self.ev(n.elt, e2))
